@@ -236,7 +236,7 @@ def trace : State → List Op → List (Op × Obs)
 
 /-- the geometry the abstract pool specification is told about -/
 def geoOf (c : Cfg) : PoolSpec.Geo :=
-  { lo := c.base, step := c.step, units := c.totalBig, totalReported := c.total }
+  { lo := c.base, step := c.step, units := c.totalBig, totalReported := c.totalBig }
 
 /-- a request naming any address inside a unit refers to that unit (getIndexByPrefix rounds down) -/
 def unitOf (c : Cfg) (x : Nat) : Nat :=
